@@ -76,12 +76,8 @@ def classify(body, impl, verdict):
         return "read-dir-failure-panics"
     snaps = [t for t in impl.split(" ") if t.startswith("s{")]
     names = [e.split("=")[0] for e in snaps[-1][2:snaps[-1].index("}")].split(",") if e] if snaps else []
-    if any(n + "2e677a" in names for n in names):
-        return "original-next-to-its-archive-after-failed-compression"
     naming = c[7].split(".")
     direct_ts = naming[0] == "tsd" or (naming[0] == "cu" and naming[1] == "~")
-    if direct_ts and c[4] == "1" and toks.count("S") > 1 and "2e726573746172742d" in impl:
-        return "direct-timestamps-append-onto-base-with-restart-siblings"
     return None
 
 
